@@ -9,7 +9,6 @@ import (
 	"math/rand"
 	"os"
 	"path/filepath"
-	"reflect"
 	"strings"
 	"sync"
 
@@ -227,8 +226,13 @@ func aofTorn(args []string) int {
 			mism = append(mism, tornMismatch{bi, -1, 0, "log", err.Error()})
 			continue
 		}
-		// the log is exactly the subsequence of commands that report an update, verbatim
-		if !reflect.DeepEqual(cmds, logged) {
+		// the log is the subsequence of commands that report an update (same command, key and id; the spelling of an
+		// entry is the server's business)
+		sameLog := len(cmds) == len(logged)
+		for i := 0; sameLog && i < len(cmds); i++ {
+			sameLog = sameLogged(logged[i], cmds[i])
+		}
+		if !sameLog {
 			mism = append(mism, tornMismatch{bi, -1, 0, "log", fmt.Sprintf("log holds %d commands %q, the model logs %d commands %q", len(cmds), cmds, len(logged), logged)})
 			continue
 		}
